@@ -195,3 +195,40 @@ func TestWindowBufferByCount(t *testing.T) {
 		}
 	}
 }
+
+// A buffer that is drained completely while stop == len(window) == cap(window) wraps on the
+// next insert with start == len(window). Once it has filled up again purge must still expire
+// the oldest points (it used to treat the newest point as a valid tail and purge nothing).
+func TestWindowBufferByTime_DrainThenWrap(t *testing.T) {
+	newPoint := func(sec int64) edge.PointMessage {
+		return edge.NewPointMessage(
+			"name", "db", "rp",
+			models.Dimensions{},
+			nil,
+			nil,
+			time.Unix(sec, 0).UTC(),
+		)
+	}
+	times := func(buf *windowTimeBuffer) []int64 {
+		var ts []int64
+		for _, p := range buf.points() {
+			ts = append(ts, p.Time().Unix())
+		}
+		return ts
+	}
+	buf := &windowTimeBuffer{}
+	buf.insert(newPoint(0))
+	buf.insert(newPoint(0))
+	// Drain: both points expire, start == stop == len == cap == 2.
+	buf.purge(time.Unix(1, 0).UTC(), true)
+	assert.Equal(t, 0, buf.size)
+	// Wrap and fill up again.
+	buf.insert(newPoint(2))
+	buf.insert(newPoint(3))
+	assert.Equal(t, []int64{2, 3}, times(buf))
+	// Only the point at 3 is still inside [3, ...).
+	buf.purge(time.Unix(3, 0).UTC(), true)
+	assert.Equal(t, []int64{3}, times(buf))
+	buf.insert(newPoint(4))
+	assert.Equal(t, []int64{3, 4}, times(buf))
+}
